@@ -47,6 +47,7 @@ def check_daa_value(res, facts, tier):
         for limbs in _exps(top):
             k = sum(v << (64 * i) for i, v in enumerate(limbs))
             ex = SX.Engine(facts, "ws", c07_dft._models(c08_arith._first), max_paths=4, max_depth=8, inline_limit=600, max_visits=60000)
+            ex.strict_flow = True
             if mode in ("limbs", "pow"):
                 arg = SX.Ref(SX.Cell(SX.Obj(adt="array", fields={i: v for i, v in enumerate(limbs)})))
             else:
